@@ -467,6 +467,9 @@ type c16Obs struct {
 	batches []*c16Batch
 }
 
+// letters used in the compact "batch order" strings of samples and digests
+var c16TriggerLetter = map[string]string{"threshold": "T", "tick": "t", "quit": "q", "flush": "f", "wait": "w", "other": "o"}
+
 type c16Stats struct {
 	tasks, batches int
 	byTrigger      map[string]int
@@ -494,7 +497,7 @@ func c16Verify(m *vk.M, desc string, cfg c16Cfg, o c16Obs, st *c16Stats) bool {
 	for _, b := range o.batches {
 		st.batches++
 		st.byTrigger[b.trigger]++
-		ord = append(ord, fmt.Sprint(b.trigger[:1], len(b.tasks)))
+		ord = append(ord, fmt.Sprint(c16TriggerLetter[b.trigger], len(b.tasks)))
 		if b.bad != "" {
 			c16Viol(m, "C16:phantom", desc, "%s (batch %v, trigger %s)", b.bad, b.tasks, b.trigger)
 			return false
